@@ -99,6 +99,14 @@ theorem rsp_error_or_exact {r : Response} {m : Spec.RspMeaning} (hb : BuiltRsp r
   | err e => exact Or.inl ⟨e, rfl⟩
   | panic => exact absurd he (rsp_never_panics hb buf)
 
+/-- Read Exception Status is a built kind like the fixed-layout ones: `rsp_no_truncation` at it says that any
+    success wrote exactly `07 s`, which decodes to a value meaning `ReadExceptionStatus(s)` -/
+example (s : UInt8) (buf : Bytes) (n : Nat) (out : Bytes)
+    (h : (Response.readExceptionStatus s).encode buf = .ok (n, out)) :
+    out.take n = [0x07, s] ∧ ∃ r', Response.decode (out.take n) = .ok r' ∧ r'.sem = some (.readExceptionStatus s) := by
+  obtain ⟨_, _, _, hi, hd⟩ := (rsp_no_truncation (.readExceptionStatus s) buf).2 n out h
+  exact ⟨hi (fun a h => by cases h), hd trivial⟩
+
 /-- "count fields match the payload", explicitly for coil payloads: on success the count byte, read
     as a number, is the number of payload bytes `⌈n/8⌉`, the reported length is `2 + ⌈n/8⌉`, and the
     payload bytes are the packed field of ALL the coils -/
